@@ -325,6 +325,11 @@ func (a *analysis) oracleC18() verdict {
 	if r.msg != "" {
 		return a.fv(a.tapeKey(r.key), "%s", r.msg)
 	}
+	// "drawn there in its finished state": a bar with extender lines is its whole
+	// row group, lines in their documented order, also in the frame that retires it
+	if m := a.extenderRows(); m != "" {
+		return a.fv("row-group-incomplete", "%s", m)
+	}
 	popped := 0
 	clipped := a.clippedPossible()
 	for bi, spec := range sc.Bars {
@@ -414,22 +419,13 @@ func describeKind(spec BarSpec, kind string) string {
 
 // ---------------------------------------------------------------- C17
 
-func (a *analysis) oracleC17() verdict {
-	if v := a.commonInconclusive(); v != nil {
-		return *v
-	}
-	if v := a.stuckVerdict("C17"); v != nil {
-		return *v
-	}
-	if v := a.framesUsable(); v != nil {
-		return *v
-	}
+// handoverCheck: the rules for bars queued after another bar (shared by C17 and
+// C05): never shown together with the predecessor; a successor queued before the
+// cycle of the predecessor's last frame takes over in the very next frame at its
+// rank; one created later appears in the first frame whose cycle began after its
+// Add returned.
+func (a *analysis) handoverCheck() (viol *verdict, nt, late bool) {
 	sc := a.sc
-	if a.errCycle || sc.Delay {
-		return inconclusive("render error / delay")
-	}
-	nt := false
-	late := false
 	for bi, spec := range sc.Bars {
 		p := spec.After
 		if p < 0 || a.rr.bar(bi) == nil || a.rr.bar(p) == nil {
@@ -437,7 +433,8 @@ func (a *analysis) oracleC17() verdict {
 		}
 		for fi, f := range a.frames {
 			if f.find(bi) != nil && f.find(p) != nil {
-				return a.fv("together", "frame %d shows bar %d together with bar %d it was queued after", fi, bi, p)
+				v := a.fv("together", "frame %d shows bar %d together with bar %d it was queued after", fi, bi, p)
+				return &v, nt, late
 			}
 		}
 		if a.first[p] < 0 {
@@ -457,11 +454,13 @@ func (a *analysis) oracleC17() verdict {
 			nt = true
 			a.ob("timely_handovers_checked", 1)
 			if a.first[bi] != lp+1 {
-				return a.fv("handover-gap", "bar %d was queued after bar %d before the cycle of %d's last frame (%d) began, but first appears in frame %d, not %d", bi, p, p, lp, a.first[bi], lp+1)
+				v := a.fv("handover-gap", "bar %d was queued after bar %d before the cycle of %d's last frame (%d) began, but first appears in frame %d, not %d", bi, p, p, lp, a.first[bi], lp+1)
+				return &v, nt, late
 			}
 			if a.leavingKind(p) == "replaced" && a.queuedBeforeFlush(bi, p) {
 				if m := a.rankMsg(bi, p); m != "" {
-					return a.fv("handover-rank", "%s", m)
+					v := a.fv("handover-rank", "%s", m)
+					return &v, nt, late
 				}
 			}
 		} else {
@@ -471,12 +470,34 @@ func (a *analysis) oracleC17() verdict {
 			for fi, f := range a.frames {
 				if f.Cycle >= 0 && f.Cycle < len(a.begins) && a.begins[f.Cycle] > a.addRet[bi] && fi > lp+1 {
 					if a.first[bi] < 0 || a.first[bi] > fi {
-						return a.fv("late-successor-not-shown", "bar %d was queued after bar %d, which had its last frame %d before; frame %d belongs to a cycle that began after Add returned, yet bar %d first appears in frame %d", bi, p, lp, fi, bi, a.first[bi])
+						v := a.fv("late-successor-not-shown", "bar %d was queued after bar %d, which had its last frame %d before; frame %d belongs to a cycle that began after Add returned, yet bar %d first appears in frame %d", bi, p, lp, fi, bi, a.first[bi])
+						return &v, nt, late
 					}
 					break
 				}
 			}
 		}
+	}
+	return nil, nt, late
+}
+
+func (a *analysis) oracleC17() verdict {
+	if v := a.commonInconclusive(); v != nil {
+		return *v
+	}
+	if v := a.stuckVerdict("C17"); v != nil {
+		return *v
+	}
+	if v := a.framesUsable(); v != nil {
+		return *v
+	}
+	sc := a.sc
+	if a.errCycle || sc.Delay {
+		return inconclusive("render error / delay")
+	}
+	viol, nt, late := a.handoverCheck()
+	if viol != nil {
+		return *viol
 	}
 	// Wait accounts for every bar: it cannot return before each bar's finishing call was invoked
 	if tw := a.rr.tWaitRet.Load(); tw != 0 && sc.End == "natural" && !a.cancelPossible() {
